@@ -123,7 +123,7 @@ pub fn sats_features() -> Features {
     pool_scripts: 30,
     coinbase_multi: 30,
     coinbase_under: 20,
-    coinbase_dup: 5,
+    coinbase_dup: 8,
     txs_per_block: (0, 4),
     ..Features::none()
   }
@@ -536,7 +536,10 @@ pub fn gen_tx(rng: &mut Rng, f: &Features) -> TxSpec {
   let mut inputs = Vec::new();
   for i in 0..n_inputs {
     let k = rng.below(1 << 16) as u32;
-    let mut sel = if pct(rng, f.same_block_spend) {
+    let mut sel = if f.coinbase_dup > 0 && rng.chance(1, 4) {
+      // spend the latest copy of a duplicated coinbase soon after it appears
+      InputSel::Duplicated(k)
+    } else if pct(rng, f.same_block_spend) {
       InputSel::SameBlock(k)
     } else if pct(rng, f.move_inscriptions) {
       InputSel::Inscribed(k)
